@@ -104,8 +104,12 @@ def check_match_loop(repo: Repo, rep, tier):
         rep.instance("C08-R2", desc, sample if total % 500 == 1 else None)
         for rid, key, msg in viols:
             # C02/C09 rules found by the same runs are reported by their own checks
+            kind = key.split("|")[1]
             if rid.startswith("C08"):
                 rep.violation(rid, "|".join(key.split("|")[:2]), msg, {"ordering": desc})
+            elif kind in ("unfilled", "nonterminating", "raises"):
+                # an order the path reaches but that does not fill breaks the path order of fills as well
+                rep.violation("C08-R2", f"match-loop|{kind}", msg, {"ordering": desc})
     rep.floor("C08-R2", 500)
     rep.extra["match_loop_orderings"] = total
 
